@@ -212,6 +212,18 @@ func c16WalkOSLinks(how string) string {
 			return fmt.Sprintf("fail: walking %s (%s): afero visits [%s], filepath.Walk visits [%s]", strings.TrimPrefix(root, dir), how, got, want)
 		}
 	}
+	// Glob over the same tree: a directory reached through a link is a directory to list
+	gfs := osfs
+	if strings.HasPrefix(how, "ro") {
+		gfs = afero.NewReadOnlyFs(osfs)
+	}
+	for _, pat := range []string{"r/linkdir/*", "r/*/sub", "r/*/sub/f", "r/l*/s*", "rootlink/*", "rootlink/*/sub/*", "r/dangling/*", "r/linkfile/*", "r/*", "r/link*", "*/linkdir/sub/?", "r/[l]inkdir/*/f"} {
+		got, err1 := afero.Glob(gfs, filepath.Join(dir, pat))
+		want, err2 := filepath.Glob(filepath.Join(dir, pat))
+		if (err1 == nil) != (err2 == nil) || strings.Join(got, " ") != strings.Join(want, " ") {
+			return fmt.Sprintf("fail: Glob(%s) (%s): afero gives %v, %v; filepath.Glob gives %v, %v", pat, how, got, err1, want, err2)
+		}
+	}
 	return "ok"
 }
 
